@@ -16,15 +16,6 @@ Definition A_REMOVED_SELF : N := 65534.
 (* WinAPINativeEvent(action, src_path) - src_path relative to the watched directory *)
 Record native := Native { n_action : N; n_path : bytes }.
 
-(* the FileSystemEvent objects put on the queue (string paths) *)
-Inductive ev :=
-| Created (k : kind) (p : bytes) (syn : bool)
-| Deleted (k : kind) (p : bytes)
-| Modified (k : kind) (p : bytes)
-| Moved (k : kind) (s d : bytes) (syn : bool).
-
-Definition dirkind (b : bool) : kind := if b then KDir else KFile.
-
 Section Emit.
   Variable isdir : bytes -> bool.      (* os.path.isdir now *)
   Variable walk : bytes -> tree.       (* os.walk below a directory now *)
@@ -132,10 +123,3 @@ Section Contract.
     end.
 End Contract.
 
-Definition render (root : bytes) (e : aev) : ev :=
-  match e with
-  | ACreated k p syn => Created k (abspath root p) syn
-  | ADeleted k p => Deleted k (abspath root p)
-  | AModified k p => Modified k (abspath root p)
-  | AMoved k s d syn => Moved k (abspath root s) (abspath root d) syn
-  end.
